@@ -310,6 +310,90 @@ pub fn run(tier: Tier) -> i32 {
         }
     });
 
+    // 3. what a string may contain: every printable ASCII character (and some beyond ASCII) as a
+    //    run of each length of a ladder, alone and between other operands, in flash and EEPROM
+    let n_strings = AtomicU64::new(0);
+    {
+        let mut chars: Vec<String> = (0x20u8..0x7f).filter(|c| *c != b'"').map(|c| (c as char).to_string()).collect();
+        for c in ["\u{e9}", "\u{fc}", "\u{20ac}", "\u{1f600}", "\t"] {
+            chars.push(c.to_string());
+        }
+        let ladder: Vec<usize> = if tier.thorough() { vec![1, 2, 3, 8, 63, 64, 65, 199, 200, 201, 202, 250, 255, 256, 257, 1000, 4000] } else { vec![1, 2, 3, 64, 200, 201, 250, 1000] };
+        let mut sw: Vec<(String, usize, usize)> = vec![];
+        for c in chars.iter() {
+            for n in ladder.iter() {
+                for place in 0..3usize {
+                    if place > 0 && *n != 3 && *n != 201 {
+                        continue;
+                    }
+                    sw.push((c.clone(), *n, place));
+                }
+            }
+        }
+        // all of them in one string
+        sw.push((chars.concat(), 1, 0));
+        sw.push((chars.concat(), 3, 1));
+        sw.par_iter().for_each(|(c, n, place)| {
+            let st = Op::Str(c.repeat(*n));
+            let ops: Vec<Op> = match place {
+                0 => vec![st],
+                1 => vec![Op::Val("1".into(), Some(1)), st, Op::Val("2".into(), Some(2))],
+                _ => vec![Op::Str("ab".into()), Op::Val("7".into(), Some(7)), st],
+            };
+            let l = line(Dir::Db, &ops);
+            let hint = format!("dir=.db/string-of={}/place={}", if c.chars().count() == 1 { format!("U+{:04X}", c.chars().next().unwrap() as u32) } else { "all-characters".to_string() }, place);
+            n_strings.fetch_add(2, Ordering::Relaxed);
+            check(Seg::C, vec![l.clone()], emit(Dir::Db, &ops, true), format!("seg=cseg/{}", hint), 0);
+            check(Seg::E, vec![l.clone()], emit(Dir::Db, &ops, false), format!("seg=eseg/{}", hint), 0);
+        });
+    }
+    // 4. symbols whose values do not fit the narrower widths: a label beyond 64 K words, large and
+    //    negative constants, a .set variable - bare and inside expressions
+    let n_bigsym = AtomicU64::new(0);
+    {
+        let syms: Vec<(&str, i128)> = vec![
+            ("far_l", 0x10002), ("far_l+0", 0x10002), ("far_l-0x10000", 2), ("far_l & 0xffff", 2), ("low(far_l)", 2), ("-far_l", -0x10002),
+            ("big_k", 0x12345), ("neg_k", -40000), ("huge_k", 0x1_0000_0001), ("var_s", 70000), ("near_l", 0x10000), ("near_l-1", 0xffff), ("far_l*65536", 0x1_0002_0000),
+        ];
+        let mut bw: Vec<(Dir, usize, usize)> = vec![];
+        for d in [Dir::Db, Dir::Dw, Dir::Dd, Dir::Dq] {
+            for si in 0..syms.len() {
+                for place in 0..2usize {
+                    bw.push((d, si, place));
+                }
+            }
+        }
+        bw.par_iter().for_each(|(d, si, place)| {
+            let (text, val) = syms[*si];
+            let sym = Op::Val(text.to_string(), Some(val));
+            let ops: Vec<Op> = if *place == 0 { vec![sym] } else { vec![Op::Val("1".into(), Some(1)), sym] };
+            // flash: near_l at 0x10000, a pad word, far_l at 0x10002 where the data line stands
+            let src = format!(".equ big_k = 0x12345\n.equ neg_k = -40000\n.equ huge_k = 0x100000001\n.set var_s = 70000\n.org 0x10000\nnear_l: .dw 0, 0\nfar_l: {}\n", line(*d, &ops));
+            let o = sut::build_str(&src);
+            evals.fetch_add(1, Ordering::Relaxed);
+            n_bigsym.fetch_add(1, Ordering::Relaxed);
+            let want = emit(*d, &ops, true);
+            let key_hint = format!("dir={}/symbol={}", d.name(), text.split(|ch: char| !ch.is_ascii_alphanumeric() && ch != '_').find(|t| t.ends_with("_l") || t.ends_with("_k") || t.ends_with("_s")).unwrap_or(text));
+            let bad: Option<(String, String)> = match (&want, &o) {
+                (Some(bytes), Outcome::Ok(b)) => {
+                    let off = 0x10002 * 2;
+                    if b.code.len() < off || &b.code[off..] != &bytes[..] {
+                        Some((format!("C06/wrong-bytes/{}", key_hint), format!("expected {} at word 0x10002, got {}", sut::hex(bytes), if b.code.len() >= off { sut::hex_trunc(&b.code[off..], 24) } else { "a shorter image".to_string() })))
+                    } else {
+                        None
+                    }
+                }
+                (Some(bytes), Outcome::Err(e)) => Some((format!("C06/rejected/{}", key_hint), format!("must emit {} but the build fails: {}", sut::hex(bytes), e))),
+                (None, Outcome::Ok(b)) => Some((format!("C06/accepted/{}", key_hint), format!("the value {} does not fit {} but the build succeeds and emits {}", val, d.name(), if b.code.len() >= 0x20004 { sut::hex_trunc(&b.code[0x20004..], 24) } else { String::new() }))),
+                (None, Outcome::Err(_)) => None,
+                (_, Outcome::Panic { site, msg }) => Some((format!("C06/panic/{}", key_hint), format!("panic at {}: {}", site, msg))),
+            };
+            if let Some((key, what)) = bad {
+                rep.violation(&key, || format!("{} :: {}", line(*d, &ops), what), || json!({"kind": "build_str", "source": src, "expected": match &want { Some(b) => json!({"result": "ok", "bytes_at_word_0x10002": sut::hex(b)}), None => json!({"result": "err (any text)"}) }, "observed": if let Outcome::Ok(b) = &o { json!({"result": "ok", "code_len": b.code.len()}) } else { o.to_json() }}));
+            }
+        });
+    }
+
     let nimg = images.lock().unwrap().len();
     rep.guard(n_ok.load(Ordering::Relaxed) > 1000 && n_err.load(Ordering::Relaxed) > 1000, "need both Ok and Err outcomes");
     rep.guard(nimg > 500, "fewer than 500 distinct images");
@@ -321,10 +405,12 @@ pub fn run(tier: Tier) -> i32 {
     let coverage = cov(json!({
         "evaluations": evals.load(Ordering::Relaxed),
         "distinct_nontrivial": nimg,
-        "rule": "4 directives x every operand list of length 1..4 (thorough 5) over a 17-symbol alphabet (0, 1, 0x7f, width max, max+1, -1, width min, min-1, .equ symbol, forward label, expression, \"\", \"a\", \"ab\", \"a,b;c\", \"é\", a string with backslashes) x {cseg, eseg, dseg}; plus every sequence of <=4 (thorough 6) lines over {odd .db, 5-byte .db, even .db, .dw, .dd, .dq, .byte 1, .byte 3} in each segment; distinct_nontrivial = distinct non-empty-or-empty expected images that were confirmed",
+        "rule": "4 directives x every operand list of length 1..4 (thorough 5) over a 17-symbol alphabet (0, 1, 0x7f, width max, max+1, -1, width min, min-1, .equ symbol, forward label, expression, \"\", \"a\", \"ab\", \"a,b;c\", \"é\", a string with backslashes) x {cseg, eseg, dseg}; plus every sequence of <=4 (thorough 6) lines over {odd .db, 5-byte .db, even .db, .dw, .dd, .dq, .byte 1, .byte 3} in each segment; plus .db strings made of a run (8 lengths up to 1000, thorough 17 up to 4000) of each printable ASCII character and of 5 others, alone and between other operands, in flash and EEPROM; plus every directive with symbols whose value does not fit the narrower widths (a label beyond 64 K words, large, negative and 33-bit constants, a .set variable, bare and in expressions); distinct_nontrivial = distinct non-empty-or-empty expected images that were confirmed",
         "exhaustive": true,
         "operand_lists": n_lists,
         "line_sequences": n_seqs,
+        "string_content_programs": n_strings.load(Ordering::Relaxed),
+        "large_symbol_value_programs": n_bigsym.load(Ordering::Relaxed),
         "outcomes": {"ok": n_ok.load(Ordering::Relaxed), "err": n_err.load(Ordering::Relaxed)},
         "caps_hit": [],
         "trusted_base": ["harness reference emitter (element order, little-endian, width, one pad byte per odd .db line in flash only)"],
